@@ -194,6 +194,33 @@ def _slot_position(fn, tup, share, binders, pm):
     return None, None
 
 
+def _elem_values(fn, e, use, pm):
+    """Replace a name bound as the element of `enumerate([E(v) for v in range(a, b)])` by E(position + a): the k-th element of a
+    list built by a comprehension over a range is that comprehension's element expression at v = a + k."""
+    import copy
+    binders, _ = routes._context(fn, use, pm)
+
+    class X(ast.NodeTransformer):
+        def visit_Name(self, n):
+            for b in reversed(binders):
+                if b.kind == 'enum' and b.elem == n.id and b.start == 0:
+                    src = routes.xp(fn, b.src, b.node, pm)
+                    if isinstance(src, ast.ListComp) and len(src.generators) == 1 and not src.generators[0].ifs and isinstance(src.generators[0].target, ast.Name):
+                        g = src.generators[0]
+                        it = g.iter
+                        if isinstance(it, ast.Call) and isinstance(it.func, ast.Name) and it.func.id == 'range' and len(it.args) in (1, 2):
+                            lo = it.args[0] if len(it.args) == 2 else None
+                            posn = ast.Name(id=b.pos, ctx=ast.Load())
+                            val = posn if lo is None else ast.BinOp(left=posn, op=ast.Add(), right=copy.deepcopy(lo))
+
+                            class R(ast.NodeTransformer):
+                                def visit_Name(self, m):
+                                    return copy.deepcopy(val) if m.id == g.target.id else m
+                            return R().visit(copy.deepcopy(src.elt))
+            return n
+    return X().visit(copy.deepcopy(e))
+
+
 def rule_SS4_points(ctx, rep):
     """(a) every tuple flowing into recombine carries x = <party the share came from> + 1."""
     n = 0
@@ -213,6 +240,7 @@ def rule_SS4_points(ctx, rep):
         for tup in tuples:
             n += 1
             x = routes.xp(fn, tup.elts[0], tup, pm)
+            x = _elem_values(fn, x, tup, pm)
             P = _plus_one(x)
             if P is None:
                 rep.bad('SS4', fn, tup, f'x-coordinate {norm(tup.elts[0])} is not <party index> + 1: the share is attributed to a wrong evaluation point '
@@ -228,6 +256,28 @@ def rule_SS4_points(ctx, rep):
                 continue
             mp = routes._mod_parts(P)
             binders, guards = routes._context(fn, tup, pm)
+            # the party is an element of a list that is also the list of parties received from, at the same position
+            if mp is None and isinstance(tup.elts[0], ast.BinOp):
+                praw = _plus_one(tup.elts[0])
+                pb = routes._find_binder(_Tmp(tup, binders), praw.id) if isinstance(praw, ast.Name) else None
+                if pb is not None and pb.kind == 'enum' and pb.elem == praw.id and pb.start == 0:
+                    cont, pos_p = _slot_position(fn, tup, tup.elts[1], binders, pm)
+                    src_p = cnorm(routes.xp(fn, pb.src, pb.node, pm))
+                    hit = None
+                    for e in recvs:
+                        if e.slot is None or e.slot[0] != 'comp' or not isinstance(e.peer_raw, ast.Name):
+                            continue
+                        rb = routes._find_binder(e, e.peer_raw.id)
+                        if rb is None or rb.elem != e.peer_raw.id or rb.node is not e.slot[2] or len(e.slot[2].generators) != 1 or e.slot[2].generators[0].ifs:
+                            continue
+                        if cnorm(routes.xp(fn, rb.src, rb.node, pm)) == src_p and (e.slot[1] is None or cont == e.slot[1]) \
+                                and pos_p is not None and pos_p == Lin.sym(pb.pos):
+                            hit = e
+                    if hit is not None:
+                        rep.ok('SS4', fn, tup, f'slot k holds the share received from the k-th party of {norm(pb.src)}; it is attributed to that party\'s point')
+                    else:
+                        rep.bad('SS4', fn, tup, f'the share paired with x-coordinate {norm(tup.elts[0])} was not received from party {norm(praw)}: recombination uses wrong evaluation points')
+                    continue
             if mp is None or not routes.is_M(fn, mp[1], tup, pm):
                 rep.bad('SS4', fn, tup, f'the party of the point ({norm(P)}) is not reduced modulo the number of parties: for a window that wraps around, shares are '
                         'attributed to evaluation points no party holds')
